@@ -1,6 +1,6 @@
 SPECIFICATION Spec
 CONSTANTS
-  EffTokens = {"pa", "pae", "sp", "in", "pn"}
+  EffTokens = {"pa", "pae", "sp", "in", "pn", "pcr"}
   MaxEff = 1
   Modes = {"normal", "exc"}
   FnModes = {"normal"}
